@@ -91,6 +91,15 @@ CHECKS.update({
    ref="DESIGN.md §4 C17"),
 })
 
+CHECKS.update({
+ "C16": dict(
+   category="fault_enumeration",
+   technique="structure-aware fault enumeration / mutation fuzzing in sandboxed child processes: every structural field of generated valid files set to boundary values, truncations, index redirection, hand-assembled hostile files, token/line/byte mutations of valid text; oracle = only a value or a clean Err (panic site, child death, allocation request measured by a counting allocator)",
+   text="Fault enumeration: hundreds of thousands (thorough: millions) of deterministically enumerated malformed inputs derived from valid class files, tiny/tinydiff/enigma/nests text and descriptor strings are given to duke::read_class (+write_class on acceptance), read_class_multi into (), quill's four text readers, Nests::read and the three descriptor parsers inside sandboxed children; a panic, the death of the child (stack overflow, abort) or a single allocation request beyond 64x input + 16 MiB is a violation, a stall is inconclusive. Holds on everything enumerated after the recorded fixes.",
+   note="Trusted: harness encoder field map, sandbox (counting global allocator, catch_unwind, child protocol). 'Never loops forever' is only observable as a watchdog expiry (exit 2).",
+   ref="DESIGN.md §4 C16"),
+})
+
 NOT_YET = {
 }
 
